@@ -30,3 +30,16 @@ Definition run_parse (x:sx) : sx :=
       | None => sx_bad end
   | _ => sx_bad
   end.
+
+(* ---------- printer *)
+From Phil Require Import Show.
+Definition optZ_of (x:sx) : option (option Z) := optZ_of_sx x.
+(* (objs prefix expert level width) -> res text ; expert/width are () or (n) *)
+Definition run_show (x:sx) : sx :=
+  match x with
+  | SL [objs; SA prefix; e; SA lv; w] =>
+      match objs_of_sx objs, optZ_of e, Z_of_str lv, optZ_of w with
+      | Some l, Some e', Some lv', Some w' => sx_res SA (as_str l prefix e' lv' w')
+      | _, _, _, _ => sx_bad end
+  | _ => sx_bad
+  end.
